@@ -166,7 +166,10 @@ func vxFrame(names []string, cols []vxCol, ix index.Int) QFrame {
 	if ix == nil {
 		return f
 	}
-	return f.withIndex(ix)
+	// the frame gets its own copy: the harness keeps ix as the reference the frame is compared with
+	own := make(index.Int, len(ix))
+	copy(own, ix)
+	return f.withIndex(own)
 }
 
 func vxEnumRank(s string) int {
